@@ -242,6 +242,24 @@ fn write_var(var: &Var<Val>, op: &str, x: Option<Val>) -> Option<Val> {
     }
 }
 
+pub fn panic_class(panic: &str) -> &'static str {
+    if panic.is_empty() {
+        ""
+    } else if panic.contains("too large height") {
+        "height"
+    } else if panic.contains("cyclic") {
+        "cyclic"
+    } else if panic.contains("max height already seen") {
+        "max_height_seen"
+    } else if panic.contains("injected user panic") {
+        "user"
+    } else if panic.contains("NotStabilising") || panic.contains("left == right") {
+        "status"
+    } else {
+        "other"
+    }
+}
+
 fn panic_msg(p: Box<dyn std::any::Any + Send>) -> String {
     if let Some(s) = p.downcast_ref::<&str>() {
         s.to_string()
@@ -371,8 +389,11 @@ impl Session {
                 let z = x.zip(&y);
                 let c2 = ctx.clone();
                 // the tuple is converted to the value universe by an extra map node (id + 1)
-                let _ = c2;
-                let n = z.map(move |(p, q): &(Val, Val)| Val::pair(p.int(), q.int()));
+                let n = z.map(move |(p, q): &(Val, Val)| {
+                    let v = Val::pair(p.int(), q.int());
+                    c2.with(|t| t.log.inv.push((id + 1, vec![v.to_json()])));
+                    v
+                });
                 ctx.push_node(id, None);
                 ctx.push_node(id + 1, Some(n));
             }
@@ -673,6 +694,12 @@ impl Session {
                 }
             }
         }
+        if let Some(want) = e["inreads"].as_array() {
+            let got: Vec<J> = t.log.reads.iter().map(|(o, r)| json!({"o": o, "r": r})).collect();
+            if &got != want {
+                out.push(Mismatch { prop: "C07", step, what: format!("reads inside functions {got:?} expected {want:?}") });
+            }
+        }
         if let Some(st) = e["stable"].as_bool() {
             if let Some(s) = &self.state {
                 if s.is_stable() != st {
@@ -702,17 +729,45 @@ impl Session {
 pub fn run_behaviour(hist: &[J], max_height: Option<usize>) -> Vec<Mismatch> {
     let mut s = Session::new(max_height);
     let mut out = vec![];
+    let mut poisoned = false;
     for (i, a) in hist.iter().enumerate() {
         if a["a"] == "expect" {
             out.extend(s.check_expect(a, i));
             continue;
         }
+        if a["a"] == "expect_panic" {
+            // reads after a caught panic (C13)
+            let mut ms = s.check_expect(&json!({"reads": a["reads"]}), i);
+            for m in ms.iter_mut() {
+                m.prop = "C13";
+            }
+            out.extend(ms);
+            continue;
+        }
         if let Err(msg) = s.apply(a) {
             if msg.starts_with("harness:") {
                 out.push(Mismatch { prop: "HARNESS", step: i, what: msg });
-            } else {
-                out.push(Mismatch { prop: "C04", step: i, what: format!("action {a} panicked: {msg}") });
+                break;
             }
+            // a panic is fine exactly where the spec predicts one (next entry is expect_panic)
+            match hist.get(i + 1) {
+                Some(e) if e["a"] == "expect_panic" => {
+                    let want = e["class"].as_str().unwrap_or("");
+                    let got = panic_class(&msg);
+                    if (want == "height" || want == "cyclic") && got != want {
+                        out.push(Mismatch { prop: "C19", step: i, what: format!("panic does not name the cause ({want}): {msg}") });
+                    }
+                    poisoned = true;
+                }
+                _ => {
+                    out.push(Mismatch { prop: if poisoned { "C13" } else { "C04" }, step: i, what: format!("action {a} panicked: {msg}") });
+                    break;
+                }
+            }
+        } else if matches!(hist.get(i + 1), Some(e) if e["a"] == "expect_panic") {
+            let class = hist[i + 1]["class"].as_str().unwrap_or("").to_string();
+            let prop = if class == "user" || poisoned { "C13" } else { "C19" };
+            out.push(Mismatch { prop, step: i, what: format!("action {a} returned normally although a {class} panic is due") });
             break;
         }
     }
@@ -825,8 +880,8 @@ impl Session {
             .observers
             .iter()
             .map(|v| match v.first() {
-                Some(o) if panic.is_empty() => read_json(o.try_get_value()),
-                _ => json!(["gone", ""]),
+                Some(o) => read_json(o.try_get_value()),
+                None => json!(["gone", ""]),
             })
             .collect();
         let n_nodes = self.state.as_ref().map_or(0, |s| s.verif_num_nodes());
@@ -851,19 +906,7 @@ impl Session {
         };
         let order = ORDER.with(|o| std::mem::take(&mut *o.borrow_mut()));
         snap["order"] = json!(order);
-        let pclass = if panic.is_empty() {
-            ""
-        } else if panic.contains("too large height") {
-            "height"
-        } else if panic.contains("cyclic") {
-            "cyclic"
-        } else if panic.contains("max height already seen") {
-            "max_height_seen"
-        } else if panic.contains("injected user panic") {
-            "user"
-        } else {
-            "other"
-        };
+        let pclass = panic_class(panic);
         json!({
             "panic": panic, "pclass": pclass, "reads": reads, "cells": cells, "inv": inv, "dlv": dlv, "cut": cut,
             "inreads": inreads, "rets": t.log.rets.clone(),
@@ -895,7 +938,6 @@ pub fn record_script(script: &[J], max_height: Option<usize>, run: usize, out: &
         out.push(line.to_string());
         if r.is_err() {
             panicked = true;
-            break;
         }
     }
     let d = catch_unwind(AssertUnwindSafe(move || drop(s)));
